@@ -15,6 +15,7 @@
 (*   ParScns      two and three entries, parallel 0..4: every interleaving  *)
 (*                of the entries' request sequences under the throttle      *)
 (*   RegScns      registry entries: repository filters x tag filters        *)
+(*   SameScns     the target is a repository of the source registry         *)
 (*   S14Scns      top level alternations of 2-3 of the five pool tags in    *)
 (*   S14Quick     every order, as allow and as deny list; with Anchoring =  *)
 (*                "asis" TLC finds the C18-1 (S14) counterexample           *)
@@ -34,7 +35,7 @@ CharsDef == [v1 |-> <<"v", "1">>, v10 |-> <<"v", "1", "0">>, xv2 |-> <<"x", "v",
 \* lexicographic, as the registry lists them (dtA stands for sha256-...)
 NameOrderDef == <<"latest", "r1", "r10", "r2", "dtA", "v1", "v10", "v2", "xr2", "xv2">>
 
-E0 == [type |-> "repository", srepo |-> "r1", stag |-> "", trepo |-> "r1", ttag |-> "",
+E0 == [type |-> "repository", srepo |-> "r1", stag |-> "", treg |-> "tgt", trepo |-> "r1", ttag |-> "",
        allow |-> <<>>, deny |-> <<>>, rallow |-> <<>>, rdeny |-> <<>>, platform |-> "", mts |-> <<>>,
        backup |-> "none", referrers |-> FALSE, digestTags |-> FALSE, fastCheck |-> FALSE, force |-> FALSE]
 Img1(r, t) == [E0 EXCEPT !.type = "image", !.srepo = r, !.stag = t, !.trepo = r, !.ttag = t]
@@ -101,6 +102,15 @@ ParScns(z) ==
              <<[Img1("r1", "v1") EXCEPT !.backup = "const"], [Img1("r1", "v2") EXCEPT !.backup = "tagtpl"],
                [E0 EXCEPT !.srepo = "r2", !.trepo = "m/r2", !.backup = "othreg"]>>}}
 
+\* ---------------------------------------------------------------- mirror inside the source registry
+SameScns(z) ==
+  {Scn(Conf(par, <<[e EXCEPT !.treg = "src", !.trepo = "mirror/r1", !.backup = bk, !.platform = pl],
+                   [E0 EXCEPT !.srepo = "r2", !.trepo = "r2", !.backup = "const"]>>),
+       {<<"r1", "v1", "A">>, <<"r1", "v2", "X">>, <<"r2", "v1", "B">>, <<"mirror/r1", "v1", t1>>, <<"mirror/r1", "zz", "C">>},
+       {<<"r2", "v1", "A">>, <<"r1", "v1", "C">>}, <<Run(m), Move("r1", "v1", "B"), Run("once")>>) :
+     par \in {0, 2}, e \in {Img1("r1", "v1"), E0}, bk \in {"none", "tagtpl", "const", "fullref", "othreg"},
+     pl \in {"", "arm64"}, t1 \in {"A", "B"}, m \in Modes3}
+
 \* ---------------------------------------------------------------- registry entries
 R3 == {"r1", "r10", "r2"}
 RLists(z) == {<<>>} \cup {<<F(SeqOf(a), "group")>> : a \in SUBSET R3}
@@ -140,9 +150,9 @@ SharedBkSeqScns(z) ==
 \* TLC evaluates every constant level definition without parameters when it starts; the spaces
 \* above take a dummy parameter so that only the one a configuration selects is built
 CONSTANT Space
-SpaceScns == CASE Space = "quick" -> <<FilterScns(0), DecideQuick(0), RollScns(0), ParScns(0), RegScns(0), SharedBkSeqScns(0),
+SpaceScns == CASE Space = "quick" -> <<FilterScns(0), DecideQuick(0), RollScns(0), ParScns(0), RegScns(0), SharedBkSeqScns(0), SameScns(0),
                                       BkForceScns(0), S14Quick(0)>>
-               [] Space = "gen" -> <<DecideQuick(0), RollScns(0), ParScns(0), RegScns(0)>>
+               [] Space = "gen" -> <<DecideQuick(0), RollScns(0), ParScns(0), RegScns(0), SameScns(0), S14Quick(0), BkForceScns(0)>>
                [] Space = "full" -> <<DecideFull(0)>>
                [] Space = "par" -> <<ParScns(0)>>
                [] Space = "s14" -> <<S14Scns(0)>>
